@@ -1004,7 +1004,8 @@ fn main() {
     let mut n_txn = 0;
     let mut n_unknown = 0;
     for (rel, file) in &parsed {
-        if !rel.starts_with("cmd/") || rel.starts_with("cmd/completion") {
+        let extra = ["patch/revspec.rs", "branchloc.rs", "stack/upgrade.rs"].contains(&rel.as_str());
+        if !(rel.starts_with("cmd/") || extra) || rel.starts_with("cmd/completion") {
             continue;
         }
         let mut v = CmdVisitor::default();
